@@ -3,6 +3,7 @@ package rules
 import (
 	"fmt"
 	"go/types"
+	"golang.org/x/tools/go/ssa"
 	"strings"
 
 	"verif/ssvcheck/internal/core"
@@ -181,6 +182,30 @@ func runC05(c *core.Ctx) {
 	}
 	c.Min("C05-R2", nSites, 12, "signature-consuming beacon-node call sites")
 
+	// the beacon client REBUILDS the validator registration around the reconstructed signature: its
+	// timestamp must be the quantity every operator signed (start time of the current epoch), or the
+	// submitted object no longer verifies under the validator key
+	for _, x := range []struct{ fn, want, what string }{
+		{ssv + "beacon/goclient.(*goClient).createValidatorRegistration", "*.GetSlotStartTime(*, *.GetEpochFirstSlot(*, *.EstimatedCurrentEpoch(*)))", "start time of the current epoch's first slot"},
+		{ssv + "protocol/v2/ssv/runner.(*ValidatorRegistrationRunner).calculateValidatorRegistration", "*.EpochStartTime(*, *.EstimatedEpochAtSlot(*, *StartingDuty.Slot))", "start time of the duty slot's epoch"},
+	} {
+		f := fn(c, "C05-R2", x.fn)
+		if f == nil {
+			continue
+		}
+		a := c.E.Analyze(f)
+		k := 0
+		for _, st := range storesWhere(f, func(st *ssa.Store) bool {
+			fa, ok := st.Addr.(*ssa.FieldAddr)
+			return ok && fieldName(fa) == "Timestamp"
+		}) {
+			k++
+			got := a.D.D(st.Store.Val).String()
+			c.Decide(ens.Glob(x.want, got), "C05-R2", short(x.fn)+"|registration timestamp = "+x.what, c.P.Pos(st.Store.Pos()), clip(got),
+				"the registration timestamp is "+clip(got)+", not the "+x.what+": the object sent to the beacon node differs from the one the committee signed")
+		}
+		c.Min("C05-R2", k, 1, "Timestamp store in "+short(x.fn))
+	}
 	// ---------------- R3: what the quorum exit of the base functions guarantees
 	bp := runnerPkg + ".(*BaseRunner)."
 	ensures(c, "C05-R3", bp+"basePostConsensusMsgProcessing", "r0=true,err=nil", []Req{
